@@ -1,3 +1,4 @@
+import RossModel.Lemmas.SourceTie
 import RossModel.Lemmas.Event
 /-!
 # C03 — Every event survives encode -> decode unchanged
@@ -37,5 +38,9 @@ theorem C03_wf_iff (e : Event) : e.WF ↔ ∀ r t n d, e = .data r t n d → n.t
 /-- non-vacuity: a data event with a 3-byte payload, a message and an animate event round-trip (evaluated by the kernel) -/
 example : decode .data (encode ⟨0, 0, 0⟩ (.data 0x0102 0x0304 3 [7, 8, 9])) = .ok (.data 0x0102 0x0304 3 [7, 8, 9]) := by decide
 example : decode .message (encode ⟨1, 2, 3⟩ (.message 1 2 3 (.u16 0xbeef))) = .ok (.message 1 2 3 (.u16 0xbeef)) := by decide
+
+/-! ### tie to the source text (constants regenerated from /repo by `bin/extract` on every run) -/
+/-- every encoder writes and every decoder checks the code constant of its own kind; the sub-codec tags are the model's -/
+theorem C03_src_codecs : (SrcTie.constUseOk && SrcTie.bcmTagsOk && SrcTie.relayTagsOk) = true := by decide
 
 end Ross.Props
